@@ -118,6 +118,8 @@ pub fn check_text(w: &mut Worker, c: &Case) -> Verdict {
         "soup" => "family:soup",
         "mutant" => "family:mutant",
         "fuzz" => "family:fuzz",
+        "script" => "family:script",
+        "long" => "family:long-line",
         _ => "family:corpus",
     };
     acc.finish(rendered)
@@ -399,6 +401,60 @@ pub fn mutant_text() -> impl Strategy<Value = (Cfg, String, String)> {
     })
 }
 
+/// small scripts: assignments whose right-hand side may fail at parse time or at evaluation time (type
+/// mismatch), followed by uses of the name in every operand position
+pub fn script_text() -> impl Strategy<Value = String> {
+    let names = prop::sample::select(vec!["x", "total", "total cost", "rent", "ürün"]);
+    let value = prop::sample::select(vec![
+        "5", "-3", "1,5", "0", "1 day", "2 hours", "11:30", "10 usd", "$5", "3 kg", "1 inch", "12/12/2020", "10%", "0x10", "today", "15:00 EST", "1 jan 2021", "2 weeks 3 days", "(", "", "1 +", "* 2", "hello", "99999999999999999999", "1 byte",
+    ]);
+    let op = prop::sample::select(vec!["+", "-", "*", "/", "", "to", "as", "of", "on", "in"]);
+    let line = (0u8..10, names, value.clone(), op, value).prop_map(|(k, n, a, o, b)| match k {
+        0 | 1 => format!("{} = {}", n, a),
+        2 | 3 => format!("{} = {} {} {}", n, a, o, b),
+        4 => format!("{} {} {}", a, o, n),
+        5 => format!("{} {} {}", n, o, b),
+        6 => format!("{} {}", a, n),
+        7 => format!("-{}", n),
+        8 => format!("{} = {} {} {}", n, n, o, b),
+        _ => n.to_string(),
+    });
+    prop::collection::vec(line, 2..7).prop_map(|l| l.join("\n"))
+}
+
+/// long repetitive lines (up to ~1200 characters, several hundred tokens): one fragment repeated 20-200 times
+pub fn long_text() -> impl Strategy<Value = String> {
+    let unit = prop::sample::select(vec![
+        "1", "1 hour", "3 hours", "2 km", "5 usd", "$5", "10%", "x", "total cost", "(1", "1)", "(2)", "-1", "1,5", "10:30", "1 day", "12/12/2020", "0x1", "1k", "ş", "€", "1 kg", "jan", "5 mb", "to", "#",
+    ]);
+    let joiner = prop::sample::select(vec![" + ", " - ", " * ", " / ", " ", "+", ", ", " to ", " = "]);
+    (unit, joiner, 20usize..200, prop::option::weighted(0.4, prop::sample::select(vec!["x = 5", "total cost = 3 hours", "x = 1 day + 5"])), prop::option::weighted(0.4, prop::sample::select(vec!["x", "3 hours", "total cost * 2", "1 + 1"]))).prop_map(|(u, j, n, pre, post)| {
+        let mut body = String::new();
+        for i in 0..n {
+            if i > 0 {
+                body.push_str(j);
+            }
+            body.push_str(u);
+            if body.len() > 1100 {
+                break;
+            }
+        }
+        let mut lines = vec![];
+        if let Some(p) = pre {
+            lines.push(p.to_string());
+        }
+        match post {
+            Some(p) if body.len() < 1000 => lines.push(format!("{}{}{}", body, j, p)),
+            Some(p) => {
+                lines.push(body);
+                lines.push(p.to_string());
+            }
+            None => lines.push(body),
+        }
+        lines.join("\n")
+    })
+}
+
 pub fn case_strategy(tier: Tier) -> impl Strategy<Value = Case> {
     let (frags, lines) = match tier {
         Tier::Quick => (14, 5),
@@ -410,7 +466,9 @@ pub fn case_strategy(tier: Tier) -> impl Strategy<Value = Case> {
     ];
     let generic = (cfg_strategy(), lang_strategy(), fam).prop_map(|(cfg, lang, (family, text))| Case { cfg, lang, text, family });
     let mutant = (mutant_text(), lang_strategy(), 0u8..8).prop_map(|((cfg, lang, text), other, pick)| Case { cfg, lang: if pick == 0 { other } else { lang }, text, family: "mutant".to_string() });
-    prop_oneof![3 => generic, 1 => mutant]
+    let script = (script_text(), lang_strategy()).prop_map(|(text, lang)| Case { cfg: Cfg::default(), lang, text, family: "script".to_string() });
+    let long = (long_text(), lang_strategy(), cfg_strategy()).prop_map(|(text, lang, cfg)| Case { cfg, lang, text, family: "long".to_string() });
+    prop_oneof![12 => generic, 4 => mutant, 3 => script, 1 => long]
 }
 
 /// the panic witnesses of DESIGN.md section 6 plus boundary texts for the slot count
@@ -445,7 +503,7 @@ pub fn corpus() -> Vec<Case> {
 }
 
 pub fn run(ctx: &Ctx) {
-    ctx.rule("generated texts of 1-8 lines (LF/CRLF, optional trailing separator) from three families - arbitrary Unicode, token soup over a vocabulary built from config.json and the grammar (numbers in every literal form incl. over-long based literals, operators and alias characters, keywords of both languages, units, currencies, zones, months, times, atoms and fields with well-formed and malformed payloads), mutated valid lines - crossed with language tags (en, tr, unknown) and configurations reachable through the setters (separators incl. equal/empty/multi-byte, default zone incl. invalid strings, number/percent digits over the u8 range, money flags); oracle: no panic (call site attributed), returns within the watchdog, status true, slot count = independent LF/CRLF line count, every line before the first assignment evaluates exactly as it does alone; non-trivial = at least one slot is not empty and the text is multi-line or comes from the soup/mutant/corpus families; distinct = distinct (configuration, language, text)");
+    ctx.rule("generated texts of 1-8 lines (LF/CRLF, optional trailing separator) from three families - arbitrary Unicode, token soup over a vocabulary built from config.json and the grammar (numbers in every literal form incl. over-long based literals, operators and alias characters, keywords of both languages, units, currencies, zones, months, times, atoms and fields with well-formed and malformed payloads), mutated valid lines (token deleted / duplicated / swapped / glued, numbers replaced by extreme operands), small scripts of assignments that fail at parse or evaluation time followed by uses of the name, long repetitive lines of up to ~1200 characters / several hundred tokens - crossed with language tags (en, tr, unknown) and configurations reachable through the setters (separators incl. equal/empty/multi-byte, default zone incl. invalid strings, number/percent digits over the u8 range, money flags); oracle: no panic (call site attributed), returns within the watchdog, status true, slot count = independent LF/CRLF line count, every line before the first assignment evaluates exactly as it does alone; non-trivial = at least one slot is not empty and the text is multi-line or comes from the soup/mutant/corpus families; distinct = distinct (configuration, language, text)");
     ctx.assume("termination is decided by a 20 s in-process watchdog confirmed by a 120 s child process");
     ctx.assume("lines mentioning now/şimdi are excluded from the standalone comparison (time of day)");
     ctx.run_table(&Total, "corpus", corpus(), false);
